@@ -32,8 +32,16 @@ def mk_space(tp, items):
     return tp.spaces.Space({n: d for n, d in items})
 
 
+def torch_dtype(torch, tag):
+    return {"f64": torch.float64, "f32": torch.float32, "i64": torch.int64}[tag]
+
+
+def dtype_tag(torch, dt):
+    return {torch.float64: "f64", torch.float32: "f32", torch.int64: "i64"}.get(dt, str(dt))
+
+
 def mk_points(tp, torch, j):
-    t = torch.tensor(j["vals"], dtype=torch.float64).reshape(j["shape"])
+    t = torch.tensor(j["vals"], dtype=torch_dtype(torch, j.get("dtype", "f64"))).reshape(j["shape"])
     return tp.spaces.Points(t, mk_space(tp, j["space"]))
 
 
@@ -53,6 +61,14 @@ def canon_pts(p):
     items = list(p.space.items())
     vals = [float(v) for v in t.reshape(-1).tolist()]
     return f"P {space_tok(items)} | {' '.join(str(int(s)) for s in t.shape[:-1])} | {' '.join(q(v) for v in vals)}"
+
+
+def canon_tpts(torch, p):
+    """typed canonical form: element type, then space | shape | cells as exact rationals"""
+    t = p.as_tensor
+    vals = t.reshape(-1).tolist()
+    return f"{dtype_tag(torch, t.dtype)} P {space_tok(list(p.space.items()))} | {' '.join(str(int(x)) for x in t.shape[:-1])} | " \
+           f"{' '.join(q(v) for v in vals)}"
 
 
 def canon_space(s):
@@ -273,6 +289,8 @@ def exec_step(step):
     import numpy as np
     if step["op"] == "live":
         return exec_live(tp, torch, np, step)
+    if step["op"] == "dt":
+        return exec_dt(tp, torch, np, step)
     try:
         text, res_json, objs = call_impl(tp, torch, np, step)
     except common.HarnessTrouble:
@@ -284,6 +302,259 @@ def exec_step(step):
     with g:
         oracles(tp, torch, np, step, objs, problems)
     return dict(text=text, problems=problems, result=res_json, crashes=g.crashes)
+
+
+# ------------------------------------------------------------------------------------------
+# element types: the library never converts itself; torch.cat / arithmetic promote, assignment keeps
+# the type of the target.  Cells are compared as exact rationals, so any narrowing shows.
+
+PROMOTE_RANK = {"i64": 0, "f32": 1, "f64": 2}
+
+
+def promote_py(tags):
+    return max(tags, key=lambda t: PROMOTE_RANK[t])
+
+
+def fits_py(tag, x):
+    import numpy as np
+    x = Fraction(x)
+    if tag == "i64":
+        return x.denominator == 1 and abs(x) < 2 ** 63
+    try:
+        d = float(x)
+    except OverflowError:
+        return False
+    if Fraction(d) != x:
+        return False
+    return tag == "f64" or Fraction(float(np.float32(d))) == x
+
+
+def _rows(j):
+    w = j["shape"][-1]
+    n = _prod(j["shape"][:-1])
+    return [[Fraction(v) for v in j["vals"][i * w:(i + 1) * w]] for i in range(n)]
+
+
+def _is_empty(j):
+    return _prod(j["shape"][:-1]) == 0 and j["shape"][-1] == 0
+
+
+def exec_dt(tp, torch, np, step):
+    Points = tp.spaces.Points
+    kind = step["kind"]
+
+    def P(j):
+        return mk_points(tp, torch, j)
+    problems, g = [], Guard()
+    try:
+        if kind == "join":
+            r = P(step["p"]).join(P(step["q"]))
+        elif kind == "cat":
+            r = P(step["p"]) | P(step["q"])
+        elif kind == "joined":
+            r = Points.joined(*[P(j) for j in step["ps"]])
+        elif kind == "arith":
+            a, b = P(step["p"]), P(step["q"])
+            r = {"add": lambda: a + b, "sub": lambda: a - b, "mul": lambda: a * b}[step["f"]]()
+        elif kind == "set":
+            r = P(step["p"])
+            r[index_py(torch, np, step["ix"])] = P(step["q"])
+        elif kind == "get":
+            r = P(step["p"])[index_py(torch, np, step["ix"])]
+        elif kind == "repeat":
+            r = P(step["p"]).repeat(*step["ns"])
+        elif kind == "from":
+            r = Points.from_coordinates({c["name"]: torch.tensor(c["vals"], dtype=torch_dtype(torch, c["dtype"])).reshape(c["shape"])
+                                         for c in step["cs"]})
+        else:
+            raise common.HarnessTrouble("dt kind " + kind)
+    except common.HarnessTrouble:
+        raise
+    except Exception as e:
+        return dict(text="err", problems=[], result=None, crashes=[], exc=f"{type(e).__name__}: {str(e)[:120]}")
+    text = canon_tpts(torch, r)
+    with g:
+        got_tag = dtype_tag(torch, r.as_tensor.dtype)
+        got = [Fraction(v) for v in r.as_tensor.reshape(-1).tolist()]
+        exp_tag, exp = None, None       # exp: list of exact cells (None = no claim for this cell)
+        if kind in ("join", "cat", "joined", "from"):
+            if kind == "from":
+                parts = [dict(space=[[c["name"], c["shape"][-1]]], shape=c["shape"], vals=c["vals"], dtype=c["dtype"]) for c in step["cs"]]
+            else:
+                parts = [step["p"], step["q"]] if kind != "joined" else step["ps"]
+                parts = [j for j in parts if not _is_empty(j)]
+            if parts:
+                exp_tag = promote_py([j.get("dtype", "f64") for j in parts])
+                rows = [_rows(j) for j in parts]
+                if kind == "cat":
+                    cells = [c for rs in rows for row in rs for c in row]
+                else:
+                    cells = [c for k in range(len(rows[0])) for rs in rows for c in rs[k]]
+                exp = cells
+        elif kind == "arith":
+            exp_tag = promote_py([step["p"]["dtype"], step["q"]["dtype"]])
+            fn = {"add": lambda x, y: x + y, "sub": lambda x, y: x - y, "mul": lambda x, y: x * y}[step["f"]]
+            # torch converts both operands to the promoted type, then computes there: a claim only where
+            # neither conversion nor the result rounds
+            exp = [fn(Fraction(x), Fraction(y)) if fits_py(exp_tag, x) and fits_py(exp_tag, y) else None
+                   for x, y in zip(step["p"]["vals"], step["q"]["vals"])]
+        elif kind in ("set", "get", "repeat") and all(fits_py("f64", v) for v in step["p"]["vals"] + step.get("q", {}).get("vals", [])):
+            exp_tag = step["p"]["dtype"]
+            p64 = dict(step["p"], vals=[float(v) for v in step["p"]["vals"]])
+            ref_t = None
+            if kind == "repeat":
+                t = torch.tensor(p64["vals"], dtype=torch.float64).reshape(p64["shape"])
+                ref_t = torch.cat([t] * step["ns"][0], dim=0)
+            else:
+                ref = ref_getitem(torch, np, p64, step["ix"])
+                if ref is not None and kind == "get":
+                    ref_t = ref[0] if ref[0].dim() > 1 else ref[0].unsqueeze(0)
+                elif ref is not None:
+                    _, _, bidx, cols = ref
+                    t = torch.tensor(p64["vals"], dtype=torch.float64).reshape(p64["shape"])
+                    sel = t[..., cols].clone() if cols else t[..., :0].clone()
+                    rhs = torch.tensor([float(v) for v in step["q"]["vals"]], dtype=torch.float64).reshape(step["q"]["shape"])
+                    # what an assignment into a tensor of the target's element type stores
+                    sel[bidx] = rhs.to(torch_dtype(torch, exp_tag)).to(torch.float64)
+                    if cols:
+                        t[..., cols] = sel
+                    ref_t = t
+            if ref_t is not None:
+                exp = [Fraction(v) for v in ref_t.reshape(-1).tolist()]
+        if exp_tag is not None and got_tag != exp_tag:
+            problems.append(f"{kind}: the result has element type {got_tag}; the operands {describe_dt(step)} promote to {exp_tag} "
+                            f"(assignment/indexing keep the type of the table)")
+        if exp is not None:
+            if len(got) != len(exp):
+                problems.append(f"{kind}: {len(got)} cells, expected {len(exp)}")
+            else:
+                tag = exp_tag
+                for n, (a, b) in enumerate(zip(got, exp)):
+                    if b is not None and fits_py(tag, b) and a != b:
+                        what = "the exact result" if kind == "arith" else "the cell of the operand"
+                        problems.append(f"{kind} of {describe_dt(step)}: cell {n} is {float(a)!r} (= {a}), but {what} is "
+                                        f"{float(b)!r} (= {b}), which is a value of the resulting type {tag}: the values were narrowed")
+                        break
+    return dict(text=text, problems=problems, result=None, crashes=g.crashes)
+
+
+def describe_dt(step):
+    if step["kind"] == "joined":
+        return "(" + ", ".join(j.get("dtype", "f64") for j in step["ps"]) + ")"
+    if step["kind"] == "from":
+        return "(" + ", ".join(c["dtype"] for c in step["cs"]) + ")"
+    if "q" in step:
+        return f"({step['p']['dtype']}, {step['q']['dtype']})"
+    return f"({step['p']['dtype']})"
+
+
+def tpts_tok(j):
+    return f"{j.get('dtype', 'f64')} {pts_tok(j)}"
+
+
+def dt_vals(rng, tag, n):
+    import numpy as np
+    if tag == "i64":
+        pool = [0, 1, -2, 3, 7, -8, 16777217, -16777219, 2 ** 40 + 1]
+        if rng.random() < 0.05:
+            pool = pool + [2 ** 53 + 1]
+        return [rng.choice(pool) for _ in range(n)]
+    if tag == "f32":
+        pool = [0.0, 1.0, -2.0, 0.5, -3.75, 0.25, float(np.float32(0.1)), float(np.float32(1 / 3)), 16777216.0, 1024.5]
+        return [rng.choice(pool) for _ in range(n)]
+    pool = [0.0, 1.0, -2.0, 0.5, 0.1, 0.3, 1 / 3, 16777217.0, 123456789.125, -1e-3, 2.5]
+    return [rng.choice(pool) for _ in range(n)]
+
+
+def gen_tpoints(rng, items, bshape, tag):
+    w = sum(d for _, d in items)
+    return dict(space=[list(x) for x in items], shape=list(bshape) + [w], vals=dt_vals(rng, tag, _prod(bshape) * w), dtype=tag)
+
+
+def gen_dtype(rng, n):
+    tags = ["f32", "f64", "i64"]
+    steps = []
+    for _ in range(n):
+        base = gen_space_items(rng, 2, 4)
+        cut = rng.randint(1, len(base) - 1)
+        a_items, b_items = base[:cut], base[cut:]
+        bshape = [rng.randint(1, 3) for _ in range(rng.choice([1, 1, 2]))]
+        ta, tb = rng.choice(tags), rng.choice(tags)
+        if rng.random() < 0.7:
+            while tb == ta:
+                tb = rng.choice(tags)
+        c = rng.random()
+        empty = dict(space=[], shape=[0, 0], vals=[], dtype="f32")
+        if c < 0.3:
+            p, qq = gen_tpoints(rng, a_items, bshape, ta), gen_tpoints(rng, b_items, bshape, tb)
+            if rng.random() < 0.06:
+                p, qq = rng.choice([(empty, qq), (p, empty)])
+            steps.append(dict(op="dt", kind="join", p=p, q=qq))
+        elif c < 0.4:
+            ps = [gen_tpoints(rng, a_items, bshape, ta), gen_tpoints(rng, b_items, bshape, tb)]
+            if len(b_items) >= 2 and rng.random() < 0.5:
+                ps = [ps[0], gen_tpoints(rng, b_items[:1], bshape, tb), gen_tpoints(rng, b_items[1:], bshape, rng.choice(tags))]
+            if rng.random() < 0.15:
+                ps.insert(rng.randint(1, len(ps)), empty)
+            steps.append(dict(op="dt", kind="joined", ps=ps))
+        elif c < 0.55:
+            steps.append(dict(op="dt", kind="cat", p=gen_tpoints(rng, base, bshape, ta),
+                              q=gen_tpoints(rng, base, [rng.randint(1, 2)] + bshape[1:], tb)))
+        elif c < 0.7:
+            steps.append(dict(op="dt", kind="arith", f=rng.choice(["add", "sub", "mul"]),
+                              p=gen_tpoints(rng, base, bshape, ta), q=gen_tpoints(rng, base, bshape, tb)))
+        elif c < 0.85:
+            p = gen_tpoints(rng, base, bshape, ta)
+            names = [nm for nm, _ in base]
+            key = rng.choice([None, ["V", rng.choice(names)], ["W", rng.sample(names, rng.randint(1, len(names))), "tuple"]])
+            rows = _row_items(rng, bshape, True)
+            if key is None and any(i[0] == "E" for i in rows) and rows[-1][0] != "E":
+                rows = [["E"]]
+            ix = dict(kind="tup", items=rows + ([key] if key else []))
+            p64 = dict(p, vals=[float(v) for v in p["vals"]])
+            rs = result_shape_and_space(p64, ix)
+            if rs is None:
+                continue
+            sh, sp = rs
+            steps.append(dict(op="dt", kind="set", p=p, ix=ix, q=gen_tpoints(rng, sp, sh or [1], tb)))
+        elif c < 0.93:
+            cs = []
+            for nm, d in base:
+                t = rng.choice(tags)
+                cs.append(dict(name=nm, shape=bshape + [d], vals=dt_vals(rng, t, _prod(bshape) * d), dtype=t))
+            steps.append(dict(op="dt", kind="from", cs=cs))
+        else:
+            p = gen_tpoints(rng, base, bshape, rng.choice(["f32", "i64"]))
+            if rng.random() < 0.5:
+                steps.append(dict(op="dt", kind="repeat", p=p, ns=[rng.randint(1, 2)]))
+            else:
+                p64 = dict(p, vals=[float(v) for v in p["vals"]])
+                ix = gen_index(rng, p64)
+                steps.append(dict(op="dt", kind="get", p=p, ix=ix))
+    return steps
+
+
+def dt_line(step):
+    k = step["kind"]
+    if k in ("join", "cat"):
+        return f"dt.{k} {tpts_tok(step['p'])} {tpts_tok(step['q'])}"
+    if k == "joined":
+        return f"dt.joined {len(step['ps'])} " + " ".join(tpts_tok(j) for j in step["ps"])
+    if k == "arith":
+        return f"dt.arith {step['f']} {tpts_tok(step['p'])} {tpts_tok(step['q'])}"
+    nd = len(step["p"]["shape"]) if "p" in step else 0
+    if k == "set":
+        return f"dt.set {tpts_tok(step['p'])} {index_tok(normalise_index(step['ix'], nd))} {tpts_tok(step['q'])}"
+    if k == "get":
+        return f"dt.get {tpts_tok(step['p'])} {index_tok(normalise_index(step['ix'], nd))}"
+    if k == "repeat":
+        return f"dt.repeat {tpts_tok(step['p'])} {' '.join([str(len(step['ns']))] + [str(x) for x in step['ns']])}"
+    parts = [str(len(step["cs"]))]
+    for c in step["cs"]:
+        sh = c["shape"][:-1]
+        parts.append(f"{c['dtype']} {c['name']} {' '.join([str(len(sh))] + [str(x) for x in sh])} {c['shape'][-1]} "
+                     f"{' '.join([str(len(c['vals']))] + [q(v) for v in c['vals']])}")
+    return "dt.from " + " ".join(parts)
 
 
 def observe(tp, torch, live, exp, items, where, problems):
@@ -780,6 +1051,8 @@ def model_line(step):
         return f"{op} {pts_tok(step['p'])} {index_tok(normalise_index(step['ix'], len(step['p']['shape'])))}"
     if op == "pts.set":
         return f"{op} {pts_tok(step['p'])} {index_tok(normalise_index(step['ix'], len(step['p']['shape'])))} {pts_tok(step['q'])}"
+    if op == "dt":
+        return dt_line(step)
     if op == "live":
         sets = [m for m in step["script"] if m["op"] == "set"]
         nd = len(step["p"]["shape"])
@@ -1231,6 +1504,8 @@ def gen_multiname(rng, n_random):
 
 def op_class(step):
     op = step["op"]
+    if op == "dt":
+        return f"dtype:{step['kind']}:{describe_dt(step)}"
     if op == "live":
         return "live:object-with-%d-assignments" % min(4, sum(1 for m in step["script"] if m["op"] == "set"))
     if op == "pts.get" or op == "pts.set":
@@ -1290,6 +1565,8 @@ def all_steps(ctx):
     out = []
     for st in gen_targeted(rng, ctx.scale(150, 1500)):
         out.append((st, exec_step(st)))
+    for st in gen_dtype(rng, ctx.scale(600, 6000)):
+        out.append((st, exec_step(st)))
     for st in gen_live(rng, ctx.scale(400, 4000)):
         out.append((st, exec_step(st)))
     for st in gen_multiname(rng, ctx.scale(600, 6000)):
@@ -1312,7 +1589,8 @@ def all_steps(ctx):
     return out
 
 
-RULE = ("live objects: one real Points object kept alive over a script of assignments and reads, ALL read accessors observed "
+RULE = ("mixed element types (float32/float64/int64 in both orders, values that are not representable in the narrower type) for join, "
+        "joined, |, arithmetic, assignment, from_coordinates: result type by torch promotion, cells compared as exact rationals; live objects: one real Points object kept alive over a script of assignments and reads, ALL read accessors observed "
         "before the first and after every operation; multi-name column keys in every order (exhaustive over two 4-variable spaces and five 1-dimensional variables, random up to 5 variables / 15 columns) for read and "
         "assignment; seeded histories (4-12 operations each) on random spaces (1-5 variables, dims 1-3; 0-dim and repeated names in the "
         "Space stream), 1-3 batch axes of length 0-4, integer-valued float64 cells; index expressions from a grammar (int, slice "
